@@ -67,6 +67,10 @@ var runners = map[string]func(*H){
 	"C02": runComputeProps("C02"),
 	"C05": runComputeProps("C05"),
 	"C18": runComputeProps("C18"),
+	"C03": runOapiCompute("C03"),
+	"C13": runC13,
+	"C15": runC15,
+	"C14": runC14,
 	"C09": runC09,
 	"C10": runC10,
 	"C11": runC11,
